@@ -276,9 +276,12 @@ func Harness_C18_KillAndTestaments() {
 	s1.drain()
 	var wantGone [3]bool
 	var count int64 = -1
+	killReason := ""
 	switch vChoice("kill", 5) {
 	case 0:
-		res, er, _ := caller.metaCall(wamp.MetaProcSessionKill, wamp.List{vIDAs("kill", s1.id)}, wamp.Dict{"reason": "my.reason", "message": "bye"})
+		// any valid URI is a legal reason, the router's own ones included
+		killReason = []string{"my.reason", string(wamp.ErrSystemShutdown), string(wamp.CloseNormal), string(wamp.ErrGoodbyeAndOut)}[vChoice("kill.reason", 4)]
+		res, er, _ := caller.metaCall(wamp.MetaProcSessionKill, wamp.List{vIDAs("kill", s1.id)}, wamp.Dict{"reason": killReason, "message": "bye"})
 		vAssert("kill-yields", res != nil && er == nil)
 		wantGone = [3]bool{true, false, false}
 	case 1:
@@ -317,7 +320,7 @@ func Harness_C18_KillAndTestaments() {
 			g, n := vFindMsg[*wamp.Goodbye](c.drain())
 			vAssert("killed-session-gets-goodbye", n == 1)
 			if i == 0 && n == 1 && count == -1 {
-				vAssert("goodbye-carries-reason", g.Reason == "my.reason" && g.Details["message"] == any("bye"))
+				vAssert("goodbye-carries-reason", string(g.Reason) == killReason && g.Details["message"] == any("bye"))
 			}
 		}
 	}
